@@ -51,7 +51,7 @@ ZeroL == [zi \in 1 .. N0 |-> 0]
 InBudget(bl) == IF bl = Undef THEN TRUE ELSE \A bj \in 1 .. N0 : Abs(bl[bj]) <= Budget
 Pick(S) == IF Simulate /\ S # {} THEN {RandomElement(S)} ELSE S
 \* sizes: in simulation 0 is drawn less often than the other sizes
-SizeDraw(cap, r) == IF r = 0 \/ cap = 0 THEN 0 ELSE 1 + ((r - 1) % cap)
+SizeDraw(cap, r) == IF r <= 1 \/ cap = 0 THEN 0 ELSE 1 + ((r - 2) % cap)      \* sizes 0 (two draws out of 3 cap + 1) .. cap
 PickSize(cap) == IF Simulate THEN {SizeDraw(cap, RandomElement(0 .. 3 * cap))} ELSE 0 .. cap
 
 Limb(lnm, li) == IF li <= Len(store[lnm]) THEN store[lnm][li] ELSE Undef
